@@ -82,3 +82,12 @@ register('C16', [
     'TimeAwareMatrixTransportCost::new grouping (std HashMap); pragmatic create_transport_costs and error codes -> -1 (serde model + strings)',
     'haversine approximation (trigonometry), location_fallback; non-square matrix lengths (sqrt().round() accepts them; not part of the stated property)',
 ])
+
+register('C18', [
+    'reward/prior domain: any f64 in [0, 2^20] incl. 0 and denormals; histories of length 1 (quick) / 2 (thorough) from SlotMachine::new',
+    'gamma sampler answers 0 or a normal positive finite double (a subnormal sample would make 1/precision overflow; probability < 1e-400)',
+    'mean-within-hull is checked with a rounding allowance of 2^-20 absolute on values <= 2^20 (mu + (r - mu)/n is not exact in IEEE arithmetic)',
+], [
+    'histories longer than the bound (the inductive step over symbolic n, alpha, beta, mu is not decidable as QF_FP within the caps)',
+    'random_argmax / weighted (rejection sampling over generator output), DynamicSelective agent tables (std HashMap), remedian, Noise',
+])
